@@ -93,6 +93,10 @@ VerdictC15(c) ==
   LET b == IF Len(c.bp) = 0 THEN "ok" ELSE BlueprintClause(c.n, c.rounds, c.bp) IN
   \* real = 1: the plan was created by the library for an instance with an even number of teams
   IF "real" \in DOMAIN c /\ c.real = 1 /\ c.days # (c.n - 1) * c.rounds THEN "plan-has-wrong-number-of-days"
+  \* light = 1 (very many teams): re-deriving the whole decoding is too expensive for TLC; what remains is that the
+  \* decoded plan is mutually consistent (a wrapped team id shows there)
+  ELSE IF "light" \in DOMAIN c /\ c.light = 1
+       THEN (IF \E i \in 1..Len(c.decodes) : ~Consistent(c.decodes[i].plan) THEN "decoded-inconsistent" ELSE "ok")
   ELSE IF b # "ok" THEN "blueprint:" \o b
   ELSE FirstBad([i \in 1..Len(c.decodes) |-> DecClause(c, c.decodes[i])], 1, Len(c.decodes))
 
